@@ -82,7 +82,39 @@ def run_history(seed, balance=False, steps=60):
     return [], events
 
 
+def clock_skew_check():
+    """a poll that blocks for a while before it returns a request: the time recorded for that request must be read after it arrived (virtual clock, scripted poller)"""
+    from . import zmq_history
+    Z = zmq_history.load()
+    clock = {'ms': 1_000_000}
+    real_time_ns = Z.time_ns
+    Z.time_ns = lambda: clock['ms'] * 1_000_000
+    try:
+        snd = Z.ZMQSender(['tcp://*:7100'], 'srv')
+        real_poll = snd.poller.poll
+        waited = {'done': False}
+
+        def poll(timeout=None):
+            r = real_poll(timeout)
+            if r and not waited['done']:
+                waited['done'] = True
+                clock['ms'] += 3000          # the publisher sat in this poll for 3 s before the request came in
+            return r
+        snd.poller.poll = poll
+        snd.pulls[0].feed([json.dumps({'cid': 'c0', 'uid': 'u', 'mid': -1}).encode()])
+        snd.send({'main': [None, b'x']}, None, 0)
+        rec = [c for k, c in snd.clients.items() if k.startswith('c0')]
+        if rec and rec[0].t_last < clock['ms']:
+            return [f'C04.removal: the request arrived at t={clock["ms"]} ms (after a 3000 ms wait in poll) but is recorded as t_last={rec[0].t_last} ms: the consumer would be expired {clock["ms"] - rec[0].t_last} ms early']
+        return []
+    finally:
+        Z.time_ns = real_time_ns
+
+
 def search(n=400, seed=0):
+    bad = clock_skew_check()
+    if bad:
+        return {'confirmed': True, 'inputs': {'scenario': 'one request delivered by a poll that blocked for 3 s (virtual clock)'}, 'observed': bad}
     for balance in (False, True):
         for i in range(n):
             try:
